@@ -143,14 +143,14 @@ func (s *Source) Start(ctx *resolve.Context, headers http.Header, input []byte, 
 		inst.StartFailed.Store(true)
 		ts := r.Clock.Tick()
 		inst.StartRet.Store(ts)
-		r.keyRemoval(inst.Key, KeyRemoval{Call: ts, Inst: inst, Creator: inst.Creator, What: "start-failed"})
+		r.keyRemoval(inst.Key, ts, inst, inst.Creator, nil, "start-failed")
 		return ErrInjectedStart
 	case StartErrAfterCancel:
 		<-ctx.Context().Done()
 		inst.StartFailed.Store(true)
 		ts := r.Clock.Tick()
 		inst.StartRet.Store(ts)
-		r.keyRemoval(inst.Key, KeyRemoval{Call: ts, Inst: inst, Creator: inst.Creator, What: "start-failed-after-cancel"})
+		r.keyRemoval(inst.Key, ts, inst, inst.Creator, nil, "start-failed-after-cancel")
 		return ErrInjectedStart
 	}
 	inst.StartRet.Store(r.Clock.Tick())
@@ -185,7 +185,7 @@ func (h *HookSource) SubscriptionOnStart(hc resolve.StartupHookContext, input []
 		// tears the whole trigger down.
 		sub.markRemoval(call.Ret, "hook-failed")
 		if !sub.joined.Load() {
-			r.keyRemoval(sub.Key, KeyRemoval{Call: call.Ret, Creator: sub, What: "hook-failed", HookOf: sub})
+			r.keyRemoval(sub.Key, call.Ret, nil, sub, sub, "hook-failed")
 		}
 		return ErrInjectedHook
 	case HookEmit:
@@ -194,7 +194,6 @@ func (h *HookSource) SubscriptionOnStart(hc resolve.StartupHookContext, input []
 		e.Call = r.Clock.Tick()
 		hc.Updater([]byte(e.Payload))
 		e.Ret = r.Clock.Tick()
-		r.finishEvent(e)
 	}
 	call.Ret = r.Clock.Tick()
 	return nil
